@@ -7,7 +7,8 @@
    implementation only (deep snapshots, simulation traces); see docs/C19.md. *)
 From Coq Require Import ZArith List Bool.
 From V Require Import Model.GenState Spec.C19.
-From V Require Import Proofs.C19.Thread Proofs.C19.History Proofs.C19.Scope Proofs.C19.Refute Proofs.C19.Canon.
+From Coq Require Import Permutation.
+From V Require Import Proofs.C19.Thread Proofs.C19.History Proofs.C19.Scope Proofs.C19.Refute Proofs.C19.Canon Proofs.C19.CanonOrder Proofs.C19.Rename.
 Import ListNotations.
 Open Scope Z_scope.
 
@@ -112,6 +113,17 @@ Theorem C19_scope_shared_name_refuted :
     find_module nm t1 = Some ch1 /\ find_module nm t2 = Some ch2 /\ ch1 <> ch2.
 Proof. exact scope_shared_name_refuted. Qed.
 
+(* The same design built again (every object and wire under another identity, injectively): the answer is the same
+   answer with the identities inside the module names renamed accordingly — names of ports, wires, declarations and
+   connections are untouched.  This is the "instance-unique suffixes replaced consistently" of the property. *)
+Theorem C19_rebuilt_copy :
+  forall fo fw, injective fo -> injective fw -> forall n par noInst force cr,
+    snd (ref_hier (option_map (ren_node fo fw) par) (ren_node fo fw n) noInst (option_map (ren_sname fo) force) (map (ren_sname fo) cr)) =
+    map (ren_chunk fo) (snd (ref_hier par n noInst force cr)) /\
+    snd (ref_emit (option_map (ren_node fo fw) par) (ren_node fo fw n) noInst (option_map (ren_sname fo) force) (map (ren_sname fo) cr)) =
+    map (ren_chunk fo) (snd (ref_emit par n noInst force cr)).
+Proof. exact (fun fo fw Ho Hw n par noInst force cr => conj (rebuilt_copy fo fw Ho Hw n par noInst force cr) (rebuilt_copy_single fo fw Ho Hw n par noInst force cr)). Qed.
+
 (* canon: idempotent; canon-equality is an equivalence and canon picks a representative of the class *)
 Theorem C19_canon_idempotent : forall t, canon (canon t) = canon t.
 Proof. exact canon_idempotent. Qed.
@@ -120,6 +132,18 @@ Theorem C19_canon_equivalence :
   (forall a, canon_eq a a) /\ (forall a b, canon_eq a b -> canon_eq b a) /\
   (forall a b c, canon_eq a b -> canon_eq b c -> canon_eq a c) /\ (forall a, canon_eq (canon a) a).
 Proof. exact (conj canon_eq_refl (conj canon_eq_sym (conj canon_eq_trans canon_eq_canon))). Qed.
+
+(* canon does not see the order of the lines inside a run of wire declarations (lines without instance ids) *)
+Theorem C19_canon_decl_order :
+  forall pre run1 run2 post,
+    Forall (fun l => is_decl l = true) run1 -> Forall no_ids run1 -> Permutation run1 run2 ->
+    canon (pre ++ run1 ++ post) = canon (pre ++ run2 ++ post).
+Proof. exact canon_decl_order. Qed.
+
+Example C19_canon_decl_order_instance :
+  Forall (fun l => is_decl l = true) (firstn 2 sample_a) /\ Forall no_ids (firstn 2 sample_a) /\
+  Permutation (firstn 2 sample_a) (rev (firstn 2 sample_a)).
+Proof. exact canon_decl_order_instance. Qed.
 
 (* instances: the hypotheses of the positive theorems are satisfiable on a non-trivial circuit; canon identifies two
    printings that differ in declaration order and identities and separates one with crossed instances *)
@@ -139,6 +163,12 @@ Example C19_scope_instance :
     find_module (3, Some 3) t1 = Some ch /\ find_module (3, Some 3) t2 = Some ch.
 Proof. exact scope_instance. Qed.
 
+Example C19_rebuilt_instance :
+  injective (fun x => x + 7) /\ injective (fun x => 2 * x) /\
+  snd (ref_hier None (ren_node (fun x => x + 7) (fun x => 2 * x) top) true None []) =
+  map (ren_chunk (fun x => x + 7)) (snd (ref_hier None top true None [])).
+Proof. exact rebuilt_instance. Qed.
+
 Example C19_canon_samples : canon_eq sample_a sample_b /\ ~ canon_eq sample_a sample_c.
 Proof. exact canon_samples. Qed.
 
@@ -151,5 +181,7 @@ Print Assumptions C19_shared_list_refuted.
 Print Assumptions C19_scope_independent.
 Print Assumptions C19_chunks_local.
 Print Assumptions C19_scope_shared_name_refuted.
+Print Assumptions C19_rebuilt_copy.
 Print Assumptions C19_canon_idempotent.
 Print Assumptions C19_canon_equivalence.
+Print Assumptions C19_canon_decl_order.
